@@ -9,7 +9,7 @@ PROP = "C12"
 CHECK_MODULE = "Check.C12"
 COQ_IMPORTS = "Model.AnnotationOps Check.AnnCommon Model.Text"
 SHARD = 150
-TRACKS = ["_", "x", "y", 0, 1, "A"]
+TRACKS = ["_", "x", "y", 0, 1, "A", "01", "x01", "x1", 10, "9"]     # digit runs: 1 / '01', 10 / '9' must sort as strings
 RULE = ("(annotation a, annotation b = a rebuilt in shuffled insertion order with at most one perturbation: a segment "
         "bound, a track name, a label, an extra or a missing track; different uri/modality): observed a==b, a!=b, "
         "copy/from_records/from_df/timeline round trips, timeline ==/!=, to_rttm / to_lab / to_uem (also through "
